@@ -23,11 +23,12 @@ from sfv import gen
 from sfv.canon import tok, untok, err_cat, dtype_tok, array_toks, frame_snapshot, series_snapshot
 from sfv.props.c04 import ref_positions, label_key, incl_positions, cell_equal
 from sfv.tbwire import Interner, tb_wire_from_blocks, answer_tb, real_tb_view
+from sfv.props import c08_blocks
 
-TARGETS = ['SFModel.Props.C08', 'SFModel.Props.C04Asc', 'SFModel.Bridge']
+TARGETS = ['SFModel.Props.C08', 'SFModel.Props.C08Blocks', 'SFModel.Props.C04Asc', 'SFModel.Bridge']
 THEOREMS = []  # filled from tools/meta at import (see below)
 PARTIAL = []
-CORR_ONLY = ['Frame/Series assign with Series / Frame values (label alignment, _assign_from_iloc_by_blocks), assign.bloc, assign.apply, mask, relabel, rename, insert_before/after: reference-model oracle',
+CORR_ONLY = ['Frame/Series assign with Series / Frame values (label alignment; the block generator _assign_from_iloc_by_blocks itself is proved: assign_blocks_exact, cases in c08_blocks.py), assign.bloc, assign.apply, mask, relabel, rename, insert_before/after: reference-model oracle',
              'Frame.assign with element / array values: proved at the TypeBlocks generator (assign_exact) + correspondence of the generator; the Frame wrapper (key_to_ascending_key, label keys) by the oracle',
              'TypeBlocks drop/astype/ufunc generators: model correspondence in the C03 tb cases']
 RULE = ('random frames/series x layout x interface (assign/drop/mask/astype/relabel/rename/insert) x route (iloc/loc/getitem/bloc) x '
@@ -73,6 +74,7 @@ def cases(ctx):
     yield from _assign_frame_stream(ctx, ctx.rng('assign_frame'), 700 if quick else 8000)
     yield from _tbassign_fixed()
     yield from _tbassign_stream(ctx, ctx.rng('tbassign'), 1500 if quick else 12000)
+    yield from c08_blocks.cases(ctx)       # _assign_from_iloc_by_blocks / get_block_match next to their model
     if not quick:
         yield from _tbassign_exhaustive(ctx)
 
@@ -229,6 +231,8 @@ def _tbassign_exhaustive(ctx):
 
 
 def model_lines(c):
+    if c['k'] in (c08_blocks.KIND, c08_blocks.KIND_MATCH):
+        return c08_blocks.model_lines(c)
     spec = c['spec']
     lines = [f'key.positions {gen.key_to_wire(c["rk"])} {spec["rows"]}',
              f'key.positions {gen.key_to_wire(c["ck"])} {len(spec["cols"])}']
@@ -418,6 +422,8 @@ def eval_tb_assign(ctx, c, out, plan):
 def evaluate(ctx, c, outs):
     import static_frame as sf
     import warnings
+    if c['k'] in (c08_blocks.KIND, c08_blocks.KIND_MATCH):
+        return c08_blocks.evaluate(ctx, c, outs)
     fails = []
     spec = c['spec']
     n, m = spec['rows'], len(spec['cols'])
